@@ -191,7 +191,9 @@ class Driver:
         p = subprocess.run([DRV], input=data.encode(), capture_output=True, timeout=3600)
         if p.returncode != 0:
             raise DriverError(f"driver exit {p.returncode}: {p.stderr[-400:]!r}")
-        lines = p.stdout.decode().splitlines()
+        lines = p.stdout.decode().split("\n")      # not splitlines(): U+0085 / U+2028 inside a JSON string are not line ends
+        if lines and lines[-1] == "":
+            lines.pop()
         if len(lines) != len(reqs):
             raise DriverError(f"driver answered {len(lines)} of {len(reqs)} requests: {p.stderr[-400:]!r}")
         out = [json.loads(l) for l in lines]
